@@ -32,6 +32,8 @@ func runC02(r *Run) {
 	// the update filter "anchored after the last full operation" decides which
 	// candidates compete: its coordinates must be those of the applied operation
 	r.checkProvenance(P, map[string]bool{"LastOperationTransactionTime": true, "LastOperationTransactionNumber": true})
+	// the split into create / update / full lists keeps the sorted order (stable partition) and routes by type
+	r.checkFullThenUpdate(P)
 	r.checkFirstApplicable(P, "OperationProcessor.applyFirstValidOperation")
 	r.checkFirstApplicable(P, "OperationProcessor.applyFirstValidCreateOperation")
 	if r.Universal {
@@ -110,6 +112,27 @@ func (r *Run) checkSortedBeforeGroup(P string) {
 	f := r.fn(P, pkgProcessor, "OperationProcessor.applyResolutionOptions")
 	if f == nil {
 		return
+	}
+	// who-may-call: the chronological sort is applied to the published and the unpublished list separately,
+	// before they are concatenated, and nowhere else — sorting the concatenation would interleave unpublished
+	// operations with published ones
+	if so := r.fn(P, pkgProcessor, "sortOperations"); so != nil {
+		var elsewhere []string
+		nHere := 0
+		for _, g := range r.P.SubjectFuncs(pkgProcessor) {
+			for _, c := range r.callsIn(g, "sortOperations") {
+				if c.Common().StaticCallee() != so {
+					continue
+				}
+				if g == f {
+					nHere++
+				} else {
+					elsewhere = append(elsewhere, core.FuncName(g)+" at "+r.P.Pos(c.Pos()))
+				}
+			}
+		}
+		r.R.Check(len(elsewhere) == 0 && nHere == 2, P+".sort.sites", "who-may-call: processor.sortOperations is called exactly twice, in applyResolutionOptions (once per list), and nowhere else in the package", core.FuncName(so), r.where(so),
+			"a later sort of the concatenated candidates puts an unpublished operation with an earlier request time in front of the anchored operation it competes with", fmt.Sprintf("%d call sites, both in applyResolutionOptions", nHere), fmt.Sprintf("%d sites in applyResolutionOptions; elsewhere: %s", nHere, strings.Join(elsewhere, "; ")))
 	}
 	ff := r.E.Facts(f, core.Ctx{})
 	why := "if the sort does not precede the concatenation that is filtered, split and bucketed, the first candidate in a bucket is not the earliest anchored one and the result depends on store order"
